@@ -14,6 +14,7 @@ import SfntV.Proofs.CffStrings
 import SfntV.Proofs.CffEncodingRt
 import SfntV.Proofs.CffWrite
 import SfntV.Proofs.CffFontRt
+import SfntV.Proofs.CffFontRtCid
 import SfntV.Generated.Cff
 
 namespace SfntV.Props.C13
@@ -385,24 +386,25 @@ theorem C13_privatedict_roundtrip (std custom : Array String) (p : PrivIn) (dw n
 
 /-- `topdict_roundtrip` (simple fonts): the Top DICT written by `Write` — FontInfo strings through
 SIDs of the final string table, IsFixedPitch, ItalicAngle, UnderlinePosition/Thickness (integers
-or reals), FontMatrix, Encoding, and the offsets/sizes of charset, CharStrings and Private — is
+or reals), FontMatrix, Encoding (absent, `1` for Expert, or the offset of a custom encoding), and the offsets/sizes of charset, CharStrings and Private — is
 decoded by `decodeDict` to exactly its own entries in `sortedKeys` order, strings restored. -/
-theorem C13_topdict_roundtrip (std c : List String) (f : FontIn) (h : TopDom f) (pdSize pdOffs csOffs cstrOffs : Int)
-    (ha : I32 pdSize) (hb : I32 pdOffs) (hc : I32 csOffs) (hd : I32 cstrOffs)
-    (hlen : std.length + (encodeDictS std c (topSimple f pdSize pdOffs csOffs cstrOffs)).2.length < 2147483647) :
-    decodeDict std.toArray (encodeDictS std c (topSimple f pdSize pdOffs csOffs cstrOffs)).2.toArray
-        (encodeDictS std c (topSimple f pdSize pdOffs csOffs cstrOffs)).1
-      = .ok ((sortDict (topSimple f pdSize pdOffs csOffs cstrOffs)).map fun e => (e.1, e.2.map decOperand)) :=
-  topSimple_decode std c f h pdSize pdOffs csOffs cstrOffs ha hb hc hd hlen
+theorem C13_topdict_roundtrip (std c : List String) (f : FontIn) (h : TopDom f) (enc16 : Option Int)
+    (pdSize pdOffs csOffs cstrOffs : Int)
+    (he : I32 (enc16.getD 0)) (ha : I32 pdSize) (hb : I32 pdOffs) (hc : I32 csOffs) (hd : I32 cstrOffs)
+    (hlen : std.length + (encodeDictS std c (topSimple f enc16 pdSize pdOffs csOffs cstrOffs)).2.length < 2147483647) :
+    decodeDict std.toArray (encodeDictS std c (topSimple f enc16 pdSize pdOffs csOffs cstrOffs)).2.toArray
+        (encodeDictS std c (topSimple f enc16 pdSize pdOffs csOffs cstrOffs)).1
+      = .ok ((sortDict (topSimple f enc16 pdSize pdOffs csOffs cstrOffs)).map fun e => (e.1, e.2.map decOperand)) :=
+  topSimple_decode std c f h enc16 pdSize pdOffs csOffs cstrOffs he ha hb hc hd hlen
 
-/-- `C13_font_roundtrip`, simple fonts with the Standard or Expert encoding (the property's first
-sentence for this class): whenever the model of `(*Font).Write` produces a file (shorter than
+/-- `C13_font_roundtrip`, simple fonts with the Standard, the Expert or a custom encoding (the
+property's first sentence for this class): whenever the model of `(*Font).Write` produces a file (shorter than
 2 GiB) for a font in `SimpleDom`, the model of `cff.Read` reads that file and delivers the
 normal form `nfSimple`: font name, the six FontInfo strings (absent = empty), IsFixedPitch,
 ItalicAngle (normalised to [−180, 180)), underline position and thickness (defaults −100 and 50
 restored), the font matrix (the default restored when within 1e-5 of it), the charstrings
-unchanged, the glyph names through their SIDs, the predefined encoding derived from the names,
-the private DICT `nfPriv` (every field, defaults restored, no local subrs), FD 0 for every
+unchanged, the glyph names through their SIDs, the encoding (`nfEncoding`: the predefined
+encoding derived from the names, or the custom vector itself), the private DICT `nfPriv` (every field, defaults restored, no local subrs), FD 0 for every
 glyph.  Both models are tied to the Go code byte-exactly (`cff.file.model`) and by outcome and
 every decoded field on written and damaged files (`cff.file.read`). -/
 theorem C13_font_roundtrip_simple (T : Tables) (f : FontIn) (p : PrivIn) (hd : SimpleDom T.std.toList f p)
@@ -411,19 +413,49 @@ theorem C13_font_roundtrip_simple (T : Tables) (f : FontIn) (p : PrivIn) (hd : S
     readFont T file = .ok (nfSimple T f p) :=
   readFont_writeFont_simple T f p hd file passes h hsize
 
-/-- The full statement (not proved): the same for simple fonts with a custom encoding and for
-CID-keyed fonts with several private dictionaries (normal form `nf`: additionally the encoding
-vector, ROS, GIDToCID, the FD of every glyph, one font matrix and private DICT per FD).  The
-section theorems it needs are proved (`C13_encoding_roundtrip`, `C13_fdselect_roundtrip`,
-`C13_charset_roundtrip`, `C13_privatedict_roundtrip`, `C13_layout_consistent`); the composition
-for these two classes is evaluated by the streams `cff.file.model`, `cff.file.read`,
-`cff.file.rt`, `cff.file.spec` only. -/
-def C13_font_roundtrip_full : Prop :=
-  ∀ (T : Tables) (f : FontIn) (file : Bytes) (passes : Nat), writeFont T.std.toList f = .ok (file, passes) →
-    file.length < 2147483648 →
-    ∃ out, readFont T file = .ok out ∧ out.charStrings = f.charStrings ∧ out.fontName = f.fontName ∧
-      out.isCID = f.ros.isSome ∧ (f.ros.isSome → out.charset = f.cids ∧ out.fds = f.fds.map Int.toNat) ∧
-      (f.ros = none → out.names = f.names)
+/-- `C13_font_roundtrip`, CID-keyed fonts (1 to 256 private dictionaries): whenever the model of
+`(*Font).Write` produces a file (shorter than 2 GiB) for a font in `CidDom`, the model of
+`cff.Read` reads it and delivers the normal form `nfCid`: the FontInfo fields as for simple
+fonts (font matrix default: the identity), ROS (registry and ordering through the string table,
+supplement), the GIDToCID map from the charset, the FD of every glyph from FDSelect, and for every
+FD the font matrix (default restored) and the private DICT `nfPriv` read through the Font DICT
+INDEX; no glyph names and no encoding. -/
+theorem C13_font_roundtrip_cid (T : Tables) (f : FontIn) (r o : String) (sup : Int)
+    (hd : CidDom T.std.toList f r o sup)
+    (file : Bytes) (passes : Nat) (h : writeFont T.std.toList f = .ok (file, passes))
+    (hsize : file.length < 2147483648) :
+    readFont T file = .ok (nfCid f r o sup) :=
+  readFont_writeFont_cid T f r o sup hd file passes h hsize
+
+/-- the stated domain of `C13_font_roundtrip`: a simple font in `SimpleDom` or a CID-keyed font in `CidDom` -/
+def InDomain (T : Tables) (f : FontIn) : Prop :=
+  (∃ p, SimpleDom T.std.toList f p) ∨ (∃ r o sup, CidDom T.std.toList f r o sup)
+
+/-- the normal form `nf f` (spelled out in `nfSimple`, `nfEncoding`, `nfCid`, `nfPriv`) -/
+def nf (T : Tables) (f : FontIn) : FontOut :=
+  match f.ros with
+  | some (r, o, sup) => nfCid f r o sup
+  | none =>
+    match f.privs with
+    | p :: _ => nfSimple T f p
+    | [] => nfCid f "" "" 0
+
+/-- `C13_font_roundtrip`: `InDomain f → Read (Write f) = nf f` for the models of `(*Font).Write`
+and `cff.Read` (charstrings opaque), files shorter than 2 GiB. -/
+theorem C13_font_roundtrip (T : Tables) (f : FontIn) (hd : InDomain T f)
+    (file : Bytes) (passes : Nat) (h : writeFont T.std.toList f = .ok (file, passes))
+    (hsize : file.length < 2147483648) :
+    readFont T file = .ok (nf T f) := by
+  rcases hd with ⟨p, hd⟩ | ⟨r, o, sup, hd⟩
+  · have h1 := hd.ros
+    have h2 := hd.privs
+    unfold nf
+    rw [h1, h2]
+    exact C13_font_roundtrip_simple T f p hd file passes h hsize
+  · have h1 := hd.ros
+    unfold nf
+    rw [h1]
+    exact C13_font_roundtrip_cid T f r o sup hd file passes h hsize
 
 def tinyPriv : PrivIn := { blueValues := [], otherBlues := [], blueShift := 7, blueFuzz := 1, forceBold := false }
 
@@ -435,7 +467,7 @@ theorem realDom_milli : RealDom (false, 1, -3) := Or.inr ⟨by decide, by decide
 theorem tinyFont_dom : SimpleDom [".notdef"] tinyFont tinyPriv where
   ros := rfl
   privs := rfl
-  enc := Or.inl rfl
+  enc := by intro e he; cases he
   top := { ulPos := by simp [tinyFont, ValidOperand], ulThick := by simp [tinyFont, ValidOperand],
            angle := realDom_zero,
            fm := by
@@ -527,5 +559,118 @@ theorem C13_facts :
     Gen.cffDictOps.lookup "opSyntheticBase" = some opSyntheticBase ∧
     Gen.cffStdStrings.size = 391 := by
   refine ⟨by decide, by decide, by decide, by decide, rfl⟩
+
+/-- the same font with a custom encoding: code 65 ↦ glyph 1 -/
+def tinyFontC : FontIn := { tinyFont with enc := .custom (List.replicate 65 0 ++ [1] ++ List.replicate 190 0) }
+
+theorem tinyFontC_dom : SimpleDom [".notdef"] tinyFontC tinyPriv where
+  ros := rfl
+  privs := rfl
+  enc := by
+    intro e he
+    injection he with he
+    subst he
+    have hb : ∀ g ∈ List.replicate 65 0 ++ [1] ++ List.replicate 190 0, g < 2 := by decide +kernel
+    refine ⟨by decide +kernel, hb, ?_, by decide +kernel⟩
+    intro g hg g' h1 h2
+    have := hb g hg
+    omega
+  top := ⟨tinyFont_dom.top.ulPos, tinyFont_dom.top.ulThick, tinyFont_dom.top.angle, tinyFont_dom.top.fm⟩
+  priv := tinyFont_dom.priv
+  nameLen := tinyFont_dom.nameLen
+  nGlyphs := rfl
+  nPos := by decide
+  nMax := by decide
+  csBody := by decide
+  notdef := by decide
+  latin := tinyFont_dom.latin
+  fmLen := rfl
+
+-- non-vacuity with a custom encoding: the encoding section `0, 1, 65` is found through the Top DICT
+example : readFont tinyTables
+    [1, 0, 4, 1, 0, 1, 1, 1, 2, 65, 0, 1, 1, 1, 10, 174, 15, 171, 16, 177, 17, 144, 185, 18, 0, 1, 1, 1, 2, 65, 0, 0, 0,
+     1, 65, 0, 0, 1, 0, 2, 1, 1, 2, 3, 14, 14, 144, 19, 248, 136, 20, 0, 0]
+      = .ok (nfSimple tinyTables tinyFontC tinyPriv) :=
+  C13_font_roundtrip_simple tinyTables tinyFontC tinyPriv tinyFontC_dom _ 2 (by decide +kernel) (by decide)
+
+/-- a CID-keyed font with two glyphs (CIDs 0 and 5) and two private DICTs -/
+def tinyPrivB : PrivIn := { blueValues := [-10, 0], otherBlues := [], blueShift := 7, blueFuzz := 1, forceBold := true }
+
+def tinyCid : FontIn where
+  fontName := [65]
+  strs := ["", "", "", "", "", ""]
+  isFixedPitch := false
+  ulPos := Operand.int (-100)
+  ulThick := Operand.int 50
+  ulPosDefault := true
+  ulThickDefault := true
+  ros := some ("Adobe", "Identity", 0)
+  names := []
+  cids := [0, 5]
+  enc := EncChoice.standard
+  fds := [0, 1]
+  privs := [tinyPriv, tinyPrivB]
+  charStrings := [[14], [14]]
+  defWidth := 500
+  nomWidth := 0
+
+theorem realDom_one : RealDom (false, 1, 0) := Or.inr ⟨by decide, by decide, by decide, by decide, by decide⟩
+
+theorem tinyCid_dom : CidDom [".notdef"] tinyCid "Adobe" "Identity" 0 where
+  ros := rfl
+  sup := by unfold I32; omega
+  top := { ulPos := by simp [tinyCid, ValidOperand], ulThick := by simp [tinyCid, ValidOperand],
+           angle := realDom_zero,
+           fm := by
+             intro x hx
+             simp [tinyCid, identityFM] at hx
+             rcases hx with rfl | rfl | rfl | rfl <;> first | exact realDom_one | exact realDom_zero }
+  npPos := by decide
+  npMax := by decide
+  priv := by
+    intro p hp sub hs
+    simp [tinyCid] at hp
+    rcases hp with rfl | rfl
+    · exact { bv := by intro x hx; simp [tinyPriv] at hx, ob := by intro x hx; simp [tinyPriv] at hx,
+              bs := by decide, bf := by decide, dw := by decide, nw := by decide, sub := hs,
+              scale := realDom_default, hw := realDom_zero, vw := realDom_zero }
+    · exact { bv := by intro x hx; simp [tinyPrivB] at hx; rcases hx with rfl | rfl <;> omega,
+              ob := by intro x hx; simp [tinyPrivB] at hx,
+              bs := by decide, bf := by decide, dw := by decide, nw := by decide, sub := hs,
+              scale := realDom_default, hw := realDom_zero, vw := realDom_zero }
+  nameLen := by decide
+  nCids := rfl
+  nFds := rfl
+  nPos := by decide
+  nMax := by decide
+  stdMax := by decide
+  csBody := by decide
+  notdef := by decide
+  cidR := by decide
+  fdR := by decide
+  latin := by
+    intro s hs c hc
+    rcases hs with hs | rfl | rfl
+    · simp [tinyCid] at hs; subst hs; simp at hc
+    · exact (by decide : ∀ c ∈ "Adobe".toList, c.toNat < 256) c hc
+    · exact (by decide : ∀ c ∈ "Identity".toList, c.toNat < 256) c hc
+  fmLen := rfl
+  fdm := by
+    intro i hi
+    have : tinyCid.fdMatrices.getD i defaultFM = defaultFM := by simp [tinyCid]
+    rw [this]
+    refine ⟨rfl, ?_⟩
+    intro x hx
+    simp [defaultFM] at hx
+    rcases hx with rfl | rfl | rfl | rfl <;> first | exact realDom_milli | exact realDom_zero
+
+-- non-vacuity of `C13_font_roundtrip_cid`: ROS, FDSelect, two Font DICTs and two Private DICTs are read back
+example : readFont tinyTables
+    [1, 0, 4, 1, 0, 1, 1, 1, 2, 65, 0, 1, 1, 1, 19, 140, 141, 139, 12, 30, 193, 15, 199, 17, 141, 12, 34, 207, 12, 36,
+     196, 12, 37, 0, 2, 1, 1, 6, 14, 65, 100, 111, 98, 101, 73, 100, 101, 110, 116, 105, 116, 121, 0, 0, 0, 0, 5, 0, 0,
+     1, 0, 2, 1, 1, 2, 3, 14, 14, 0, 2, 1, 1, 4, 7, 144, 219, 18, 150, 224, 18, 155, 19, 248, 136, 20, 129, 149, 6, 150,
+     19, 248, 136, 20, 140, 12, 14, 0, 0]
+      = .ok (nfCid tinyCid "Adobe" "Identity" 0) :=
+  C13_font_roundtrip_cid tinyTables tinyCid "Adobe" "Identity" 0 tinyCid_dom _ 2 (by decide +kernel) (by decide)
 
 end SfntV.Props.C13
